@@ -315,7 +315,7 @@ def _compute_strategy_coefficient(distances, strategy, labels):
     raise ValueError(f"Unknwon strategy '{strategy}'.")
 
 
-def _randomize_index(index, weights):
+def _randomize_index(index, weights, state=None):
     """
     Randomizes index depending on the value.
     Swap indexes.
@@ -324,7 +324,7 @@ def _randomize_index(index, weights):
     maxi = weights.max()
     mini = weights.min()
     diff = max(maxi - mini, 1e-5)
-    rand = numpy.random.rand(weights.shape[0])
+    rand = (numpy.random if state is None else state).rand(weights.shape[0])
     for i in range(1, index.shape[0]):
         ind1 = index[i - 1]
         ind2 = index[i]
@@ -336,7 +336,7 @@ def _randomize_index(index, weights):
             weights[i - 1], weights[i] = w2, w1
 
 
-def _switch_clusters(labels, distances):
+def _switch_clusters(labels, distances, state=None):
     """
     Tries to switch clusters.
     Modifies *labels* inplace.
@@ -344,7 +344,9 @@ def _switch_clusters(labels, distances):
     :param labels: labels
     :param distances: distances
     """
-    perm = numpy.random.permutation(numpy.arange(0, labels.shape[0]))
+    perm = (numpy.random if state is None else state).permutation(
+        numpy.arange(0, labels.shape[0])
+    )
     niter = 0
     modif = 1
     while modif > 0 and niter < 10:
@@ -419,7 +421,7 @@ def _constraint_association_distance(
     while labels.min() == -1:
         mini = numpy.min(distances, axis=1)
         sorted_index = numpy.argsort(mini)
-        _randomize_index(sorted_index, mini)
+        _randomize_index(sorted_index, mini, state=state)
 
         nover = leftover
         for ind in sorted_index:
@@ -442,7 +444,7 @@ def _constraint_association_distance(
                     distances[ind, c] = maxi
                     break
 
-    _switch_clusters(labels, distances0)
+    _switch_clusters(labels, distances0, state=state)
     distances_close[:] = distances[numpy.arange(X.shape[0]), labels]
     return distances0
 
@@ -581,7 +583,7 @@ def _constraint_association_gain(
     neg = (counters < ave).sum()
     assert neg <= 0, f"The algorithm failed, counters={counters}"
 
-    _switch_clusters(labels, distances)
+    _switch_clusters(labels, distances, state=state)
     distances_close[:] = distances[numpy.arange(X.shape[0]), labels]
 
     return distances
